@@ -11,6 +11,7 @@ import (
 
 	"github.com/criyle/go-sandbox/pkg/seccomp/libseccomp"
 	"github.com/criyle/go-sandbox/ptracer"
+	"golang.org/x/sys/unix"
 )
 
 type tracerHandler struct {
@@ -27,16 +28,26 @@ func (h *tracerHandler) Debug(v ...interface{}) {
 	}
 }
 
-func (h *tracerHandler) getString(ctx *ptracer.Context, addr uint) string {
-	return absPath(ctx.Pid, ctx.GetString(uintptr(addr)))
+// getString resolves the path at addr; follow tells whether the syscall follows a symbolic
+// link in the last component (stat does, lstat / unlink / rename / mkdir ... do not)
+func (h *tracerHandler) getString(ctx *ptracer.Context, addr uint, follow bool) string {
+	return absPath(ctx.Pid, ctx.GetString(uintptr(addr)), follow)
 }
 
-func (h *tracerHandler) getStringAt(ctx *ptracer.Context, dirfd int, addr uint) string {
-	return absPathAt(ctx.Pid, dirfd, ctx.GetString(uintptr(addr)))
+func (h *tracerHandler) getStringAt(ctx *ptracer.Context, dirfd int, addr uint, follow bool) string {
+	return absPathAt(ctx.Pid, dirfd, ctx.GetString(uintptr(addr)), follow)
+}
+
+// openFollows reports whether open with the given flags follows a final symbolic link
+func openFollows(flags uint64) bool {
+	if flags&syscall.O_NOFOLLOW != 0 {
+		return false
+	}
+	return !(flags&syscall.O_CREAT != 0 && flags&syscall.O_EXCL != 0)
 }
 
 func (h *tracerHandler) checkOpen(ctx *ptracer.Context, addr uint, flags uint) ptracer.TraceAction {
-	fn := h.getString(ctx, addr)
+	fn := h.getString(ctx, addr, openFollows(uint64(flags)))
 	if blocked, action := h.checkProcPath(ctx.Pid, fn); blocked {
 		h.Debug("open proc policy: ", fn, getFileMode(flags))
 		return action
@@ -51,7 +62,7 @@ func (h *tracerHandler) checkOpen(ctx *ptracer.Context, addr uint, flags uint) p
 }
 
 func (h *tracerHandler) checkOpenAt(ctx *ptracer.Context, dirfd int, addr uint, flags uint) ptracer.TraceAction {
-	fn := h.getStringAt(ctx, dirfd, addr)
+	fn := h.getStringAt(ctx, dirfd, addr, openFollows(uint64(flags)))
 	if blocked, action := h.checkProcPath(ctx.Pid, fn); blocked {
 		h.Debug("openat proc policy: ", fn, getFileMode(flags), "dirfd:", dirfd)
 		return action
@@ -66,13 +77,13 @@ func (h *tracerHandler) checkOpenAt(ctx *ptracer.Context, dirfd int, addr uint, 
 }
 
 func (h *tracerHandler) checkOpenAt2(ctx *ptracer.Context, dirfd int, addr uint, howAddr uint) ptracer.TraceAction {
-	fn := h.getStringAt(ctx, dirfd, addr)
+	flags, err := readOpenHowFlags(ctx.Pid, uintptr(howAddr))
+	fn := h.getStringAt(ctx, dirfd, addr, err != nil || openFollows(flags))
 	if blocked, action := h.checkProcPath(ctx.Pid, fn); blocked {
 		h.Debug("openat2 proc policy: ", fn, "dirfd:", dirfd)
 		return action
 	}
 
-	flags, err := readOpenHowFlags(ctx.Pid, uintptr(howAddr))
 	if err != nil {
 		// Fail closed for policy classification: if the kernel will attempt an
 		// openat2 but we cannot decode open_how.flags, treat it as a write-capable
@@ -88,8 +99,8 @@ func (h *tracerHandler) checkOpenAt2(ctx *ptracer.Context, dirfd int, addr uint,
 	return h.Handler.CheckWrite(fn)
 }
 
-func (h *tracerHandler) checkRead(ctx *ptracer.Context, addr uint) ptracer.TraceAction {
-	fn := h.getString(ctx, addr)
+func (h *tracerHandler) checkRead(ctx *ptracer.Context, addr uint, follow bool) ptracer.TraceAction {
+	fn := h.getString(ctx, addr, follow)
 	if blocked, action := h.checkProcPath(ctx.Pid, fn); blocked {
 		h.Debug("check read proc policy: ", fn)
 		return action
@@ -98,8 +109,8 @@ func (h *tracerHandler) checkRead(ctx *ptracer.Context, addr uint) ptracer.Trace
 	return h.Handler.CheckRead(fn)
 }
 
-func (h *tracerHandler) checkReadAt(ctx *ptracer.Context, dirfd int, addr uint) ptracer.TraceAction {
-	fn := h.getStringAt(ctx, dirfd, addr)
+func (h *tracerHandler) checkReadAt(ctx *ptracer.Context, dirfd int, addr uint, follow bool) ptracer.TraceAction {
+	fn := h.getStringAt(ctx, dirfd, addr, follow)
 	if blocked, action := h.checkProcPath(ctx.Pid, fn); blocked {
 		h.Debug("check read proc policy: ", fn, "dirfd:", dirfd)
 		return action
@@ -108,8 +119,8 @@ func (h *tracerHandler) checkReadAt(ctx *ptracer.Context, dirfd int, addr uint) 
 	return h.Handler.CheckRead(fn)
 }
 
-func (h *tracerHandler) checkWrite(ctx *ptracer.Context, addr uint) ptracer.TraceAction {
-	fn := h.getString(ctx, addr)
+func (h *tracerHandler) checkWrite(ctx *ptracer.Context, addr uint, follow bool) ptracer.TraceAction {
+	fn := h.getString(ctx, addr, follow)
 	if blocked, action := h.checkProcPath(ctx.Pid, fn); blocked {
 		h.Debug("check write proc policy: ", fn)
 		return action
@@ -118,8 +129,8 @@ func (h *tracerHandler) checkWrite(ctx *ptracer.Context, addr uint) ptracer.Trac
 	return h.Handler.CheckWrite(fn)
 }
 
-func (h *tracerHandler) checkWriteAt(ctx *ptracer.Context, dirfd int, addr uint) ptracer.TraceAction {
-	fn := h.getStringAt(ctx, dirfd, addr)
+func (h *tracerHandler) checkWriteAt(ctx *ptracer.Context, dirfd int, addr uint, follow bool) ptracer.TraceAction {
+	fn := h.getStringAt(ctx, dirfd, addr, follow)
 	if blocked, action := h.checkProcPath(ctx.Pid, fn); blocked {
 		h.Debug("check write proc policy: ", fn, "dirfd:", dirfd)
 		return action
@@ -128,8 +139,8 @@ func (h *tracerHandler) checkWriteAt(ctx *ptracer.Context, dirfd int, addr uint)
 	return h.Handler.CheckWrite(fn)
 }
 
-func (h *tracerHandler) checkStat(ctx *ptracer.Context, addr uint) ptracer.TraceAction {
-	fn := h.getString(ctx, addr)
+func (h *tracerHandler) checkStat(ctx *ptracer.Context, addr uint, follow bool) ptracer.TraceAction {
+	fn := h.getString(ctx, addr, follow)
 	if blocked, action := h.checkProcPath(ctx.Pid, fn); blocked {
 		h.Debug("check stat proc policy: ", fn)
 		return action
@@ -138,8 +149,8 @@ func (h *tracerHandler) checkStat(ctx *ptracer.Context, addr uint) ptracer.Trace
 	return h.Handler.CheckStat(fn)
 }
 
-func (h *tracerHandler) checkStatAt(ctx *ptracer.Context, dirfd int, addr uint) ptracer.TraceAction {
-	fn := h.getStringAt(ctx, dirfd, addr)
+func (h *tracerHandler) checkStatAt(ctx *ptracer.Context, dirfd int, addr uint, follow bool) ptracer.TraceAction {
+	fn := h.getStringAt(ctx, dirfd, addr, follow)
 	if blocked, action := h.checkProcPath(ctx.Pid, fn); blocked {
 		h.Debug("check stat proc policy: ", fn, "dirfd:", dirfd)
 		return action
@@ -167,54 +178,60 @@ func (h *tracerHandler) Handle(ctx *ptracer.Context) ptracer.TraceAction {
 		action = h.checkOpenAt2(ctx, int(int32(ctx.Arg0())), ctx.Arg1(), ctx.Arg2())
 
 	case "readlink":
-		action = h.checkRead(ctx, ctx.Arg0())
+		action = h.checkRead(ctx, ctx.Arg0(), false)
 	case "readlinkat":
-		action = h.checkReadAt(ctx, int(int32(ctx.Arg0())), ctx.Arg1())
+		action = h.checkReadAt(ctx, int(int32(ctx.Arg0())), ctx.Arg1(), false)
 
 	case "unlink":
-		action = h.checkWrite(ctx, ctx.Arg0())
+		action = h.checkWrite(ctx, ctx.Arg0(), false)
 	case "unlinkat":
-		action = h.checkWriteAt(ctx, int(int32(ctx.Arg0())), ctx.Arg1())
+		action = h.checkWriteAt(ctx, int(int32(ctx.Arg0())), ctx.Arg1(), false)
 
-	case "mkdirat", "mknodat", "fchmodat", "fchmodat2":
-		action = h.checkWriteAt(ctx, int(int32(ctx.Arg0())), ctx.Arg1())
+	case "mkdirat", "mknodat":
+		action = h.checkWriteAt(ctx, int(int32(ctx.Arg0())), ctx.Arg1(), false)
+	case "fchmodat", "fchmodat2":
+		action = h.checkWriteAt(ctx, int(int32(ctx.Arg0())), ctx.Arg1(), true)
 	case "symlinkat":
 		// symlinkat(target, newdirfd, linkpath): the object created is linkpath relative to newdirfd
-		action = h.checkWriteAt(ctx, int(int32(ctx.Arg1())), ctx.Arg2())
+		action = h.checkWriteAt(ctx, int(int32(ctx.Arg1())), ctx.Arg2(), false)
 	case "linkat":
 		action = combineTraceActions(
-			h.checkWriteAt(ctx, int(int32(ctx.Arg0())), ctx.Arg1()),
-			h.checkWriteAt(ctx, int(int32(ctx.Arg2())), ctx.Arg3()),
+			h.checkWriteAt(ctx, int(int32(ctx.Arg0())), ctx.Arg1(), ctx.Arg4()&unix.AT_SYMLINK_FOLLOW != 0),
+			h.checkWriteAt(ctx, int(int32(ctx.Arg2())), ctx.Arg3(), false),
 		)
 	case "renameat", "renameat2":
 		action = combineTraceActions(
-			h.checkWriteAt(ctx, int(int32(ctx.Arg0())), ctx.Arg1()),
-			h.checkWriteAt(ctx, int(int32(ctx.Arg2())), ctx.Arg3()),
+			h.checkWriteAt(ctx, int(int32(ctx.Arg0())), ctx.Arg1(), false),
+			h.checkWriteAt(ctx, int(int32(ctx.Arg2())), ctx.Arg3(), false),
 		)
 
 	case "access":
-		action = h.checkStat(ctx, ctx.Arg0())
-	case "faccessat", "faccessat2":
-		action = h.checkStatAt(ctx, int(int32(ctx.Arg0())), ctx.Arg1())
+		action = h.checkStat(ctx, ctx.Arg0(), true)
+	case "faccessat":
+		action = h.checkStatAt(ctx, int(int32(ctx.Arg0())), ctx.Arg1(), true)
+	case "faccessat2":
+		action = h.checkStatAt(ctx, int(int32(ctx.Arg0())), ctx.Arg1(), ctx.Arg3()&unix.AT_SYMLINK_NOFOLLOW == 0)
 
 	case "stat", "stat64":
-		action = h.checkStat(ctx, ctx.Arg0())
+		action = h.checkStat(ctx, ctx.Arg0(), true)
 	case "lstat", "lstat64":
-		action = h.checkStat(ctx, ctx.Arg0())
-	case "statx", "fstatat", "fstatat64", "newfstatat":
-		action = h.checkStatAt(ctx, int(int32(ctx.Arg0())), ctx.Arg1())
+		action = h.checkStat(ctx, ctx.Arg0(), false)
+	case "statx":
+		action = h.checkStatAt(ctx, int(int32(ctx.Arg0())), ctx.Arg1(), ctx.Arg2()&unix.AT_SYMLINK_NOFOLLOW == 0)
+	case "fstatat", "fstatat64", "newfstatat":
+		action = h.checkStatAt(ctx, int(int32(ctx.Arg0())), ctx.Arg1(), ctx.Arg3()&unix.AT_SYMLINK_NOFOLLOW == 0)
 
 	case "execve":
-		action = h.checkRead(ctx, ctx.Arg0())
+		action = h.checkRead(ctx, ctx.Arg0(), true)
 	case "execveat":
-		action = h.checkReadAt(ctx, int(int32(ctx.Arg0())), ctx.Arg1())
+		action = h.checkReadAt(ctx, int(int32(ctx.Arg0())), ctx.Arg1(), ctx.Arg4()&unix.AT_SYMLINK_NOFOLLOW == 0)
 
 	case "chmod":
-		action = h.checkWrite(ctx, ctx.Arg0())
+		action = h.checkWrite(ctx, ctx.Arg0(), true)
 	case "rename":
 		action = combineTraceActions(
-			h.checkWrite(ctx, ctx.Arg0()),
-			h.checkWrite(ctx, ctx.Arg1()),
+			h.checkWrite(ctx, ctx.Arg0(), false),
+			h.checkWrite(ctx, ctx.Arg1(), false),
 		)
 
 	default:
@@ -321,31 +338,31 @@ func getProcFd(pid int, fd int) string {
 	if err != nil {
 		return ""
 	}
-	return resolveTraceePath(pid, "/", normalizeProcMagicPath(pid, s))
+	return resolveTraceePath(pid, "/", s, true)
 }
 
 // absPath calculates the absolute path for a process
 // built-in function did the dirty works to resolve relative paths
-func absPath(pid int, p string) string {
+func absPath(pid int, p string, follow bool) string {
 	// if relative path
 	if !filepath.IsAbs(p) {
-		return resolveTraceePath(pid, getProcCwd(pid), p)
+		return resolveTraceePath(pid, getProcCwd(pid), p, follow)
 	}
-	return resolveTraceePath(pid, "/", p)
+	return resolveTraceePath(pid, "/", p, follow)
 }
 
-func absPathAt(pid int, dirfd int, p string) string {
+func absPathAt(pid int, dirfd int, p string, follow bool) string {
 	if filepath.IsAbs(p) {
-		return resolveTraceePath(pid, "/", p)
+		return resolveTraceePath(pid, "/", p, follow)
 	}
 	if dirfd == atFDCWD {
-		return resolveTraceePath(pid, getProcCwd(pid), p)
+		return resolveTraceePath(pid, getProcCwd(pid), p, follow)
 	}
 	base := getProcFd(pid, dirfd)
 	if base == "" {
 		return ""
 	}
-	return resolveTraceePath(pid, base, p)
+	return resolveTraceePath(pid, base, p, follow)
 }
 
 func normalizeProcMagicPath(pid int, p string) string {
@@ -421,68 +438,94 @@ func isDangerousProcPath(path string) bool {
 	}
 }
 
-func resolveTraceePath(pid int, base string, p string) string {
-	p = normalizeProcMagicPath(pid, p)
-	if !filepath.IsAbs(p) {
-		if base == "" {
-			base = getProcCwd(pid)
+// procSelfPrefix maps a leading /proc/self or /proc/thread-self to the tracee without touching the
+// rest of the path (in particular without collapsing ".." lexically)
+func procSelfPrefix(pid int, p string) string {
+	traceeProc := "/proc/" + strconv.Itoa(pid)
+	for _, m := range []struct{ from, to string }{
+		{"/proc/thread-self", traceeProc + "/task/" + strconv.Itoa(pid)},
+		{"/proc/self", traceeProc},
+	} {
+		if p == m.from || strings.HasPrefix(p, m.from+"/") {
+			return m.to + p[len(m.from):]
 		}
-		p = filepath.Join(base, p)
-	}
-	p = filepath.Clean(p)
-
-	for range maxSymlinkDepth {
-		next, changed := resolveTraceePathOnce(pid, p)
-		if !changed {
-			return next
-		}
-		p = next
 	}
 	return p
 }
 
-func resolveTraceePathOnce(pid int, p string) (string, bool) {
-	if p == "/" {
-		return p, false
+func splitPath(p string) []string {
+	return strings.Split(p, "/")
+}
+
+// resolveTraceePath resolves p relative to base the way the kernel walks it for the tracee:
+// component by component through the tracee's root, expanding a symbolic link when it is met, so
+// that a following ".." applies to the link target and not to the link's directory. The last
+// component is expanded only if followLast is set or the path ends with a slash.
+func resolveTraceePath(pid int, base string, p string, followLast bool) string {
+	for strings.Contains(p, "//") {
+		p = strings.ReplaceAll(p, "//", "/")
 	}
-
+	p = procSelfPrefix(pid, p)
 	cur := "/"
-	rest := strings.Split(strings.TrimPrefix(p, "/"), "/")
-	for i, part := range rest {
-		if part == "" || part == "." {
-			continue
+	if !filepath.IsAbs(p) {
+		if base == "" {
+			base = getProcCwd(pid)
 		}
-		if part == ".." {
+		cur = filepath.Clean("/" + base)
+	}
+	if strings.HasSuffix(p, "/") {
+		followLast = true
+	}
+	rest := splitPath(p)
+	root := fmt.Sprintf("/proc/%d/root", pid)
+	links := 0
+	for len(rest) > 0 {
+		part := rest[0]
+		rest = rest[1:]
+		switch part {
+		case "", ".":
+			continue
+		case "..":
 			cur = filepath.Dir(cur)
-			if cur == "." {
-				cur = "/"
-			}
 			continue
 		}
-
+		// cur is clean and free of symbolic links, joining one plain component keeps it so
 		candidate := filepath.Join(cur, part)
-		lstatPath := filepath.Join(fmt.Sprintf("/proc/%d/root", pid), candidate)
+		last := true
+		for _, r := range rest {
+			// a following "." makes this an intermediate component (it must be a directory)
+			if r != "" {
+				last = false
+				break
+			}
+		}
+		if last && !followLast {
+			cur = candidate
+			continue
+		}
+		lstatPath := root + candidate
 		fi, err := os.Lstat(lstatPath)
 		if err != nil || fi.Mode()&os.ModeSymlink == 0 {
 			cur = candidate
 			continue
 		}
-
 		target, err := os.Readlink(lstatPath)
 		if err != nil {
 			cur = candidate
 			continue
 		}
-		target = normalizeProcMagicPath(pid, target)
-		if !filepath.IsAbs(target) {
-			target = filepath.Join(filepath.Dir(candidate), target)
+		if links++; links > maxSymlinkDepth {
+			cur = candidate
+			continue
 		}
-		target = filepath.Clean(target)
-
-		if i+1 < len(rest) {
-			target = filepath.Join(target, filepath.Join(rest[i+1:]...))
+		for strings.Contains(target, "//") {
+			target = strings.ReplaceAll(target, "//", "/")
 		}
-		return filepath.Clean(target), true
+		target = procSelfPrefix(pid, target)
+		if filepath.IsAbs(target) {
+			cur = "/"
+		}
+		rest = append(splitPath(target), rest...)
 	}
-	return filepath.Clean(cur), false
+	return cur
 }
